@@ -46,9 +46,9 @@ RtBad(r, n) ==
     IF n > Len(r.rts) THEN ""
     ELSE LET e == r.rts[n]
              s == St(r.objs[e.i])
-         IN IF ~e.back.ok THEN "roundtrip-str-raised " \o ToString(e.i)
+         IN IF ~e.back.ok THEN "roundtrip-str-raises " \o ToString(e.i)
             ELSE IF ~e.eq THEN "roundtrip-str-not-equal " \o ToString(e.i) \o " " \o StyleDiffX(St(e.back.st), s)
-            ELSE IF ~e.nback.ok THEN "roundtrip-normalize-raised " \o ToString(e.i)
+            ELSE IF ~e.nback.ok THEN "roundtrip-normalize-raises " \o ToString(e.i)
             ELSE IF ~e.neq THEN "roundtrip-normalize-not-equal " \o ToString(e.i) \o " " \o StyleDiffX(St(e.nback.st), s)
             ELSE RtBad(r, n + 1)
 RECURSIVE RtDrift(_, _)
@@ -84,6 +84,9 @@ TripleV(r) ==
 
 \* ---- (ii) routes: every constructor, step by step on the observed inputs -----------------------
 PropOps == {"add", "chain", "combine", "parse", "normparse"}    \* ops whose value the statement fixes
+\* ... for a definition only where the documentation is explicit about it (Plain: e.g. a URL that is itself a keyword,
+\* as in "link on", is not); the round trip clauses do not depend on this
+IsProp(e) == e.op \in PropOps /\ (e.op \in {"parse", "normparse"} => Plain(e.toks))
 In(r, i) == St(r.steps[i].out.st)
 Expected(r, l) ==
     LET e == r.steps[l] IN
@@ -98,6 +101,11 @@ Expected(r, l) ==
       [] e.op = "ulink"     -> UpdateLink(In(r, e.i), e.l)
       [] e.op = "wc"        -> WithoutColor(In(r, e.i))
       [] e.op = "str"       -> In(r, e.i)
+      [] e.op = "hash"      -> In(r, e.i)
+      [] e.op = "addnone"   -> In(r, e.i)
+      [] e.op = "pick"      -> In(r, e.i)
+      [] e.op = "bgstyle"   -> BackgroundStyle(In(r, e.i))
+      [] e.op = "null"      -> Null
 StepBad(r, l) ==
     LET e == r.steps[l] IN
     IF e.op \in {"parse", "normparse"} /\ ~Parse(e.toks).ok THEN ""     \* not a definition: judged by "gram" records only
@@ -108,9 +116,13 @@ StepBad(r, l) ==
 RECURSIVE RouteBad(_, _, _)
 RouteBad(r, l, prop) ==
     IF l > Len(r.steps) THEN ""
-    ELSE IF ((r.steps[l].op \in PropOps) = prop) /\ StepBad(r, l) # ""
+    ELSE IF (IsProp(r.steps[l]) = prop) /\ StepBad(r, l) # ""
          THEN "step " \o ToString(l) \o " " \o r.steps[l].op \o " " \o StepBad(r, l)
          ELSE RouteBad(r, l + 1, prop)
+
+\* an object of the route no longer projects to what it projected to when it was made (a later call changed it in place)
+ObjChanged(r) == \E l \in 1..Len(r.steps) : /\ r.steps[l].out.ok /\ l <= Len(r.objs)
+                                             /\ ~Same(r.objs[l], r.steps[l].out.st)
 
 \* ---- (iii) grammar ------------------------------------------------------------------------------
 GramV(r) ==
@@ -140,7 +152,8 @@ Prop(r) ==
         all == Join(Join(IF own = "ok" THEN "" ELSE own, HashV(r)), RtBad(r, 1))
     IN IF all = "" THEN "ok" ELSE all
 Drift(r) ==
-    LET own == CASE r.k = "route" -> IF RouteBad(r, 1, FALSE) # "" THEN RouteBad(r, 1, FALSE) ELSE "ok"
+    LET own == CASE r.k = "route" -> IF RouteBad(r, 1, FALSE) # "" THEN RouteBad(r, 1, FALSE)
+                                     ELSE IF ObjChanged(r) THEN "operand-changed" ELSE "ok"
                  [] r.k = "gram"  -> GramDrift(r)
                  [] r.k = "class" -> IF \E i \in 1..Len(r.objs) : ~Same(r.objs[i], r.val) THEN "member-differs" ELSE "ok"
                  [] OTHER -> "ok"
